@@ -456,14 +456,14 @@ def canary(path):
 LIBMUNGE_SRCS = ["auth_send.c", "ctx.c", "decode.c", "encode.c", "enum.c", "m_msg_client.c", "strerror.c"]
 
 
-def build_lmclient(ctx, san="address", wraps=(), extra_src=()):
+def build_lmclient(ctx, san="address", wraps=(), extra_src=(), name="lmclient"):
     """lmclient linked against libmunge built from /repo's sources"""
     R = vlib.REPO
     src = [os.path.join(vlib.HARNESS, "lmclient.c")]
     src += [os.path.join(R, "src/libmunge", f) for f in LIBMUNGE_SRCS]
     src += [os.path.join(R, "src/libcommon", f) for f in ("fd.c", "m_msg.c", "str.c", "log.c", "daemonpipe.c")]
     src += [os.path.join(R, "src/libmissing", f) for f in LIBMISSING_SRCS] + list(extra_src)
-    exe = os.path.join(ctx.tmp, "lmclient")
+    exe = os.path.join(ctx.tmp, name)
     flags = ["-g", "-O1"] + (["-fsanitize=address"] if san == "address" else [])
     wl = ["-Wl," + ",".join("--wrap=" + x for x in wraps)] if wraps else []
     cmd = ["gcc", "-w"] + flags + vlib.DEFS + vlib.INCS + ["-o", exe] + src + wl + ["-lpthread"]
